@@ -55,9 +55,10 @@ func (p c20Prog) cmd(t string, k int) (src, expanded, stdout, stderr string) {
 	if p.NVars > 0 {
 		v, vv = "_{{.VA}}", "_"+c20VarVals[0]
 	}
-	src = fmt.Sprintf("echo OUT_%s_%d%s && echo ERR_%s_%d >&2 && echo %s:%d >> \"$VLOG\"", t, k, v, t, k, t, k)
+	// the texts carry printf verbs: a report that is passed through a format function would mangle them
+	src = fmt.Sprintf("echo OUT_%s_%d%s_100%%d%%s && echo ERR_%s_%d_%%v >&2 && echo %s:%d >> \"$VLOG\"", t, k, v, t, k, t, k)
 	expanded = strings.ReplaceAll(src, "{{.VA}}", c20VarVals[0])
-	return src, expanded, fmt.Sprintf("OUT_%s_%d%s\n", t, k, vv), fmt.Sprintf("ERR_%s_%d\n", t, k)
+	return src, expanded, fmt.Sprintf("OUT_%s_%d%s_100%%d%%s\n", t, k, vv), fmt.Sprintf("ERR_%s_%d_%%v\n", t, k)
 }
 
 func (p c20Prog) text() string {
